@@ -294,11 +294,12 @@ Fixpoint lookup {A} (k : str) (kvs : list (str * A)) : option A :=
   | [] => None
   | (k', v) :: r => if str_eqb k k' then Some v else lookup k r
   end.
-Fixpoint dict_set (k : str) (v : pv) (kvs : list (str * pv)) : list (str * pv) :=
-  match kvs with
-  | [] => [(k, v)]
-  | (k', w) :: r => if str_eqb k k' then (k', v) :: r else (k', w) :: dict_set k v r
-  end.
+Definition has_key {A} (k : str) (kvs : list (str * A)) : bool :=
+  match lookup k kvs with Some _ => true | None => false end.
+(* kvs with the values of the keys listed in ups replaced, then the entries of ups under new keys *)
+Definition dict_merge (kvs ups : list (str * pv)) : list (str * pv) :=
+  map (fun kx => (fst kx, match lookup (fst kx) ups with Some x' => x' | None => snd kx end)) kvs ++
+  filter (fun ku => negb (has_key (fst ku) kvs)) ups.
 Definition fkey_eqb (a b : fkey) : bool :=
   match a, b with KConst x, KConst y => str_eqb x y | KDyn, KDyn => true | _, _ => false end.
 Fixpoint field_of {A} (k : fkey) (fs : list (fkey * A)) : option A :=
@@ -396,7 +397,9 @@ Fixpoint apply (partial : bool) (s : spec) (v : pv) {struct s} : res pv :=
                           end) kvs in
                      let? r' := go r in Ok (mine ++ r')
                  end) fs in
-            Ok (PDict (fold_left (fun d kv => dict_set (fst kv) (snd kv) d) ups kvs))
+            (* the dict is updated in place: present keys keep their position, defaulted const
+               keys are appended in field order *)
+            Ok (PDict (dict_merge kvs ups))
         | _ => Err TypeErr
         end
     | SUnion cs _ =>
@@ -995,4 +998,72 @@ Definition run (c : tr) : tr :=
       | _, _, _ => ebad
       end
   | _ => ebad
+  end.
+
+(* ------------------------------------------------------------------------------------------ *)
+(** * Predicates used in theorem statements *)
+
+(* v is a value of s: apply returns it unchanged (the values a spec hands on are of this kind) *)
+Definition conforms (s : spec) (v : pv) : Prop := apply false s v = Ok v.
+
+(* no MISSING_VALUE anywhere inside *)
+Fixpoint total (v : pv) : bool :=
+  match v with
+  | PMissing => false
+  | PList l | PTuple l => forallb total l
+  | PDict kvs => forallb (fun kv => total (snd kv)) kvs
+  | _ => true
+  end.
+
+(* no Union spec inside *)
+Fixpoint no_union (s : spec) : bool :=
+  match s with
+  | SUnion _ _ => false
+  | SList e _ _ _ => no_union e
+  | STuple es _ _ _ => forallb no_union es
+  | SDict (Some fs) _ => forallb (fun kf => no_union (snd kf)) fs
+  | _ => true
+  end.
+
+(* schema keys are distinct (they are the keys of a Python dict) *)
+Fixpoint keys_distinct {A} (fs : list (fkey * A)) : bool :=
+  match fs with
+  | [] => true
+  | (k, _) :: r => match field_of k r with Some _ => false | None => true end && keys_distinct r
+  end.
+Fixpoint keys_ok (s : spec) : bool :=
+  match s with
+  | SList e _ _ _ => keys_ok e
+  | STuple es _ _ _ => forallb keys_ok es
+  | SDict (Some fs) _ => keys_distinct fs && forallb (fun kf => keys_ok (snd kf)) fs
+  | SUnion cs _ => forallb keys_ok cs
+  | _ => true
+  end.
+
+(* no Dict spec with a schema inside (schema-less Dict() is allowed) *)
+Fixpoint no_schema (s : spec) : bool :=
+  match s with
+  | SDict (Some _) _ => false
+  | SList e _ _ _ => no_schema e
+  | STuple es _ _ _ => forallb no_schema es
+  | SUnion cs _ => forallb no_schema cs
+  | _ => true
+  end.
+
+(* The frozen value of a spec is a value of the spec itself (the constructors apply it through
+   set_default / freeze before freezing, extend re-applies it); every Any is noneable (its
+   constructor says so). *)
+Definition frozen_value_ok (s : spec) : Prop :=
+  frozen (mods_of s) = true -> total (dflt (mods_of s)) = true ->
+  conforms (unfreeze s) (dflt (mods_of s)).
+Fixpoint wf (s : spec) : Prop :=
+  frozen_value_ok s /\
+  match s with
+  | SAny m => noneable m = true
+  | SList e _ _ _ => wf e
+  | STuple es _ _ _ => (fix all (l : list spec) : Prop := match l with [] => True | x :: r => wf x /\ all r end) es
+  | SDict (Some fs) _ =>
+      (fix all (l : list (fkey * spec)) : Prop := match l with [] => True | kf :: r => wf (snd kf) /\ all r end) fs
+  | SUnion cs _ => (fix all (l : list spec) : Prop := match l with [] => True | x :: r => wf x /\ all r end) cs
+  | _ => True
   end.
